@@ -62,4 +62,18 @@ CHECKS = {
         floors={"family=c01": 0.1, "family=c02": 0.2, "family=c03": 0.1, "family=c04": 0.1, "early_return=true": 0.1},
         assumptions=COMMON_ASSUMPTIONS,
     ),
+    "C08": dict(
+        level="exploration",
+        rule=("parser: (a) exhaustive grid through the verif-tagged export of the parser: 6 units x 1..8 digits x {10^(d-1), 10^d-1, +-1, zeros, nines}, the int64-overflow boundary in hours, every string of length<=2 over a 20-symbol alphabet, and a malformed corpus (empty, unit only, digits only, signs, spaces, decimals, unicode digits, wrong-case units...); "
+              "(b) rapid strings from six classes (valid, overlong, signed/spaced, wrong unit, grammar soup, arbitrary unicode); (c) thorough: native fuzz target with the grid as seed corpus. Oracle model.Timeout in math/big: accepted iff ^[0-9]{1,8}[HMSmun]$, value == min(n*unit, MaxInt64ns), never negative; "
+              "more than 8 digits (which goat's own client emits above 99999999 ms) may be ignored or read exactly, nothing else. end to end in a synctest bubble (virtual clock): caller timeouts from expired to 10^4h, unary and streams, 0..250ms virtual transit, "
+              "or a scripted client sending the header with the key in four spellings; oracle: handler has a deadline iff the caller has, D_caller-1ms <= D_handler <= D_caller+transit, remainder <1ms conveyed as exactly 1ms, header value -> arrival+model value, malformed -> no deadline. "
+              "Non-trivial = boundary digit count (1 or 8), saturating product, malformed/overlong class, remainder <1ms, non-canonical key spelling; distinct = distinct input string / case."),
+        jobs=[dict(test="TestC08Grid", kind="enum", quick=1, thorough=1, shards=1),
+              dict(test="TestC08Strings", quick=24000, thorough=1000000),
+              dict(test="TestC08E2E", quick=1600, thorough=20000),
+              dict(test="FuzzC08", kind="fuzz", quick=0, thorough=180)],
+        floors={"parser.valid": 0.05, "parser.malformed": 0.2, "e2e.api": 0.01, "e2e.header.valid": 0.005},
+        assumptions=COMMON_ASSUMPTIONS + ["the timeout parser is reached through the verif-tagged export VerifParseGrpcTimeout (same function the server calls)"],
+    ),
 }
